@@ -161,6 +161,19 @@ func overlayFor(files []string) (map[string][]byte, map[string]string, error) {
 		real[v] = p
 	}
 	for _, f := range files {
+		if strings.HasPrefix(f, "gen:corpus:") {
+			// generated from /repo's own translation corpus on every run
+			rel := strings.TrimPrefix(f, "gen:corpus:")
+			src := generateCorpus(filepath.Base(filepath.Dir(rel)))
+			p := filepath.Join(workDir(), filepath.Base(rel))
+			if err := os.WriteFile(p, []byte(src), 0o644); err != nil {
+				return nil, nil, err
+			}
+			v := filepath.Join(repoRoot, rel)
+			ov[v] = []byte(src)
+			real[v] = p
+			continue
+		}
 		p := filepath.Join(verifRoot, "harness", f)
 		b, err := os.ReadFile(p)
 		if err != nil {
@@ -171,6 +184,35 @@ func overlayFor(files []string) (map[string][]byte, map[string]string, error) {
 		real[v] = p
 	}
 	return ov, real, nil
+}
+
+// generateCorpus extracts the "-- case:" queries of the repository's translation corpus.
+func generateCorpus(pkgName string) string {
+	dir := filepath.Join(repoRoot, "cypher", "models", "pgsql", "test", "translation_cases")
+	ents, _ := os.ReadDir(dir)
+	var sb strings.Builder
+	fmt.Fprintf(&sb, "//go:build verif\n\npackage %s\n\n// generated from %s on every run\nvar verifCorpus = []string{\n", pkgName, dir)
+	seen := map[string]bool{}
+	for _, e := range ents {
+		if !strings.HasSuffix(e.Name(), ".sql") {
+			continue
+		}
+		b, err := os.ReadFile(filepath.Join(dir, e.Name()))
+		if err != nil {
+			continue
+		}
+		for _, line := range strings.Split(string(b), "\n") {
+			if q, ok := strings.CutPrefix(line, "-- case:"); ok {
+				q = strings.TrimSpace(q)
+				if q != "" && !seen[q] {
+					seen[q] = true
+					fmt.Fprintf(&sb, "\t%q,\n", q)
+				}
+			}
+		}
+	}
+	sb.WriteString("}\n")
+	return sb.String()
 }
 
 type harnessResult struct {
@@ -242,6 +284,13 @@ func cmdRun(args []string) int {
 	if len(specs) == 0 {
 		fmt.Fprintln(os.Stderr, "no harness selected")
 		return 2
+	}
+	for _, h := range specs {
+		ts := h.Quick
+		if *tier == "thorough" && h.Thorough != nil {
+			ts = h.Thorough
+		}
+		registerEntry(h, len(ts.Args))
 	}
 	// load, dropping harness files that no longer type-check
 	fileSet := map[string]bool{}
@@ -319,6 +368,9 @@ func cmdRun(args []string) int {
 		skip := ""
 		for _, f := range h.Files {
 			if e, bad := skippedFiles[f]; bad {
+				skip = e
+			}
+			if e, bad := skippedFiles[strings.TrimPrefix(f, "gen:corpus:")]; bad {
 				skip = e
 			}
 		}
